@@ -78,6 +78,15 @@ _Bool nondet__Bool(void);
 #define VC_MAXN (INT_MAX / 2 - 8)
 #endif
 #define NEW_OBJ(n) __CPROVER_allocate((n), 0)
+/* NEW_OBJ_FB(n): like NEW_OBJ(n), except in the cbmc run of the ghost-free bounded fallback (-DVC_FALLBACK=1, not the native replay),
+ * where the object has the fixed size VC_MAXOBJ (n <= VC_MAXOBJ assumed by the harness): a symbolic-size object with hundreds of
+ * unwound accesses exhausts the solver's memory there.  Value clauses are still decided for every n <= VC_MAXOBJ; an access beyond n
+ * inside that object is then seen only by the native replay (exact-size malloc under ASan) of the input found. */
+#if VC_FALLBACK && !defined(REPLAY)
+#define NEW_OBJ_FB(n) __CPROVER_allocate(VC_MAXOBJ, 0)
+#else
+#define NEW_OBJ_FB(n) NEW_OBJ(n)
+#endif
 
 /* In witness/replay mode the content of a dynamic object comes from a WIT_ARR so that
  * it shows up in the trace; in proof mode the object is left fully symbolic. */
